@@ -168,6 +168,44 @@ impl<C: SimColor> ImageVisitor<C> for PixelProbe<'_> {
     }
 }
 
+/// `size()` of the (sub-)image at the end of the chain: the size of the selected region, or any
+/// zero-sized size when nothing is selected.
+struct SizeProbe<'a> {
+    sc: &'a Scenario,
+    bad: Option<String>,
+}
+
+impl<C: SimColor> ImageVisitor<C> for SizeProbe<'_> {
+    type Out = ();
+    fn visit<I: ImageDrawable<Color = C> + GetPixel<Color = C>>(&mut self, img: &I) {
+        use embedded_graphics::image::ImageDrawableExt;
+        let i = &self.sc.img;
+        let r4 = |a: &[i32; 4]| crate::erased::rect_of(a);
+        let got = match i.subs.len() {
+            0 => img.size(),
+            1 => img.sub_image(&r4(&i.subs[0])).size(),
+            _ => {
+                let s = img.sub_image(&r4(&i.subs[0]));
+                let s2 = s.sub_image(&r4(&i.subs[1]));
+                s2.size()
+            }
+        };
+        let want = ref_sub_region(i.w, i.h, &i.subs);
+        let ok = match want {
+            Some(r) => got.width as i64 == r.w() && got.height as i64 == r.h(),
+            None => got.width == 0 || got.height == 0,
+        };
+        if !ok {
+            self.bad = Some(format!(
+                "size() of the selected (sub-)image is {}x{}, the selected region is {:?}",
+                got.width,
+                got.height,
+                want.map(|r| [r.w(), r.h()])
+            ));
+        }
+    }
+}
+
 struct NewProbe;
 impl<C: SimColor> ImageVisitor<C> for NewProbe {
     type Out = ();
@@ -182,7 +220,7 @@ fn run_typed<C: SimColor>(sc: &Scenario, opts: &Opts) -> RunOut {
     let i = &sc.img;
     let bits = sc.kind.bits();
     let kind_idx = KINDS7.iter().position(|k| *k == sc.kind).unwrap() as u32;
-    out.lattice = (kind_idx * 2 + i.be as u32) * 32 + sc.dev.lattice();
+    out.lattice = (kind_idx * 2 + i.be as u32) * 8 * crate::dev::N_DISC + sc.dev.lattice();
     out.faults_configured[2] += 1;
     out.faults_fired[2] += 1;
     if i.be {
@@ -318,6 +356,19 @@ fn run_typed<C: SimColor>(sc: &Scenario, opts: &Opts) -> RunOut {
         }
     }
 
+    // (d') size of the selected (sub-)image
+    if out.violation.is_none() {
+        let mut sp = SizeProbe { sc, bad: None };
+        match guarded(|| C::with_image(&i.data, i.w, i.h, i.be, &mut sp)) {
+            Err(p) => out.violation = Some(mk("panic", format!("sub_image / size panicked: {}", p))),
+            Ok(_) => {
+                if let Some(b) = sp.bad {
+                    out.violation = Some(mk("size_mismatch", b));
+                }
+            }
+        }
+    }
+
     // (b)(c)(d) drawing
     let mut dev = SimDisplay::<C>::new(sc.dev.rect(), sc.dev.caps, sc.dev.disc());
     if out.violation.is_none() {
@@ -420,7 +471,8 @@ fn run_typed<C: SimColor>(sc: &Scenario, opts: &Opts) -> RunOut {
                     );
                     break;
                 }
-                if c.pulled < n && c.executed_by == Method::FillContiguous {
+                // (a clipping consumer legitimately pulls fewer colours than the area has points)
+                if c.pulled < n && c.executed_by == Method::FillContiguous && sc.dev.disc != 4 {
                     out.violation = Some(mk(
                         "stream_shortfall",
                         format!(
@@ -478,10 +530,10 @@ impl Property for C09 {
         FAULTS
     }
     fn lattice_size(&self) -> u32 {
-        14 * 32
+        14 * 8 * crate::dev::N_DISC
     }
     fn lattice_desc(&self) -> &'static str {
-        "raw width (7) x data order (2) x capability set (8) x consumption discipline (4)"
+        "raw width (7) x data order (2) x capability set (8) x consumption discipline (5)"
     }
     fn sub_eval_name(&self) -> &'static str {
         "operations_checked"
